@@ -3,6 +3,7 @@ import UscxmlVerif.Model.Fast
 import UscxmlVerif.Proofs.Select
 import UscxmlVerif.Proofs.CfgInv
 import UscxmlVerif.Proofs.Nest
+import UscxmlVerif.Proofs.Interval
 /-!
 # C03 — the two micro-step engines are interchangeable (what is proved of both alike)
 
@@ -24,6 +25,19 @@ theorem both_engines_select_conflict_free_partial (c : Chart) (config : List Nat
       ∀ j ∈ (Fast.selectLoop c config ev (List.range c.trans.size) { x := x } []).transSet,
       i ≠ j → overlaps (exitSet c (tr c i)) (exitSet c (tr c j)) = false) :=
   ⟨Proofs.Select.large_selection_conflict_free c config ev pf x, Proofs.Select.fast_selection_conflict_free c config ev x⟩
+
+/-- ... and for FastMicroStep too this means disjoint exit sets in Appendix D's sense (same hypotheses as
+`Properties.C01.selection_conflict_free_w3c`) -/
+theorem fast_selection_conflict_free_w3c (c : Chart) (hc : Proofs.Struct.Coherent c = true) (hi : Proofs.Interval.IntervalOK c = true)
+    (config : List Nat) (ev : Option String) (x : XS) (S : Spec.W3C.SState) (hcfg : Proofs.Struct.ConfigOk c S.config)
+    (hplain : ∀ i ∈ (Fast.selectLoop c config ev (List.range c.trans.size) { x := x } []).transSet,
+      Properties.C05.plainTrans c (Model.Tables.tr c i) = true) :
+    ∀ i ∈ (Fast.selectLoop c config ev (List.range c.trans.size) { x := x } []).transSet,
+      ∀ j ∈ (Fast.selectLoop c config ev (List.range c.trans.size) { x := x } []).transSet,
+      i ≠ j → ∀ s, ¬ (s ∈ Spec.W3C.exitSetOf c S i ∧ s ∈ Spec.W3C.exitSetOf c S j) := by
+  intro i hi' j hj hne s hs
+  have hno := Proofs.Select.fast_selection_conflict_free c config ev x i hi' j hj hne
+  exact Proofs.Interval.disjoint_of_not_overlaps c hc hi S hcfg i j (hplain i hi') (hplain j hj) hno s hs.1 hs.2
 
 /-- both engines keep the configuration ascending and free of pseudo-states, step by step -/
 theorem both_engines_keep_configuration_a_set (c : Chart) (e : EState) (h : Proofs.CfgInv.EOk c e) :
